@@ -144,14 +144,15 @@ pub fn programs_for_c06(thorough: bool) -> Gen<Vec<S>> {
 pub fn spaces(tier: Tier) -> Vec<Box<dyn Space>> {
     let t = tier == Tier::Thorough;
     let mut v: Vec<Box<dyn Space>> = Vec::new();
-    v.push(Box::new(PruneSpace { id: "prune-b2-m2".into(), generator: programs(2, 2), profile: Profile::Fast }));
+    v.push(Box::new(PruneSpace { id: "prune-b2-m2".into(), generator: programs(2, 2), profile: Profile::Fast, twin: t }));
     if t {
-        v.push(Box::new(PruneSpace { id: "prune-b2-m3".into(), generator: programs(2, 3), profile: Profile::Fast }));
-        v.push(Box::new(PruneSpace { id: "prune-b3-m2".into(), generator: programs(3, 2), profile: Profile::Fast }));
+        v.push(Box::new(PruneSpace { id: "prune-b2-m3".into(), generator: programs(2, 3), profile: Profile::Fast, twin: false }));
+        v.push(Box::new(PruneSpace { id: "prune-b3-m2".into(), generator: programs(3, 2), profile: Profile::Fast, twin: false }));
     } else {
-        v.push(Box::new(PruneSpace { id: "prune-b1-m3".into(), generator: programs(1, 3), profile: Profile::Fast }));
+        v.push(Box::new(PruneSpace { id: "prune-b1-m3".into(), generator: programs(1, 3), profile: Profile::Fast, twin: false }));
     }
-    v.push(Box::new(PruneSpace { id: "prune-b1-m2".into(), generator: programs(1, 2), profile: Profile::Poison }));
+    v.push(Box::new(PruneSpace { id: "prune-b1-m2".into(), generator: programs(1, 2), profile: Profile::Poison, twin: false }));
+    v.push(Box::new(PruneSpace { id: "twin-b1-m2".into(), generator: programs(1, 2), profile: Profile::Fast, twin: true }));
     v
 }
 
@@ -159,6 +160,8 @@ struct PruneSpace {
     id: String,
     generator: Gen<Vec<S>>,
     profile: Profile,
+    /// also run the metamorphic twin of every unused-value warning (3+ more runs per program)
+    twin: bool,
 }
 
 impl Space for PruneSpace {
@@ -182,13 +185,65 @@ impl Space for PruneSpace {
         if !printable(&p) {
             return Outcome::ok("skip:unprintable", false);
         }
-        check_text(ctx, &print(&p))
+        let o = check_text(ctx, &print(&p));
+        if !o.violations.is_empty() {
+            return o;
+        }
+        if self.twin
+            && let Some(v) = twin_check(ctx, &p)
+        {
+            return Outcome::bad("differs", v);
+        }
+        o
     }
     fn replay(&self, ctx: &mut Ctx, input: &str) -> Option<serde_json::Value> {
         let o = check_text(ctx, input);
         Some(json!({"violation": !o.violations.is_empty(), "class": o.class,
             "detail": o.violations.first().map(|v| v.detail.clone())}))
     }
+}
+
+/// "a value reported as never read is never observed": for every Unused assignment / Unused
+/// variable warning the twin program still evaluates the right-hand side (all its effects and
+/// failures) but stores a sentinel instead; its behaviour without the plan must equal the
+/// original's. Decides the clause also for statements the plan does not skip.
+fn twin_check(ctx: &Ctx, prog: &[S]) -> Option<Violation> {
+    let (text, starts) = print_with_offsets(prog);
+    let base = drive::run_pipeline(ctx, &text, M3, RunOpts::default());
+    if !matches!(base.front, Front::Accepted) || is_stack(&base.end) {
+        return None;
+    }
+    let unused_a = SemanticError::UnusedAssignment.as_str();
+    let unused_v = SemanticError::UnusedVariable.as_str();
+    let mut seen = std::collections::BTreeSet::new();
+    for w in base.warns.iter().filter(|w| w.severity == "warning" && (w.message == unused_a || w.message == unused_v)) {
+        // innermost statement containing the warning's position
+        let Some(k) = starts.iter().rposition(|&s| s <= w.span.0) else { continue };
+        if !seen.insert(k) {
+            continue;
+        }
+        let twin = replace_stmt(prog, k, &|s| match s {
+            S::Make(v, Some(e)) => Some(S::Make(v.clone(), Some(call("twin_", vec![e.clone()])))),
+            S::Set(v, e) => Some(S::Set(v.clone(), call("twin_", vec![e.clone()]))),
+            _ => None,
+        });
+        let Some(mut twin) = twin else { continue };
+        twin.insert(0, func("twin_", &["q"], vec![S::Ret(Some(num("424242")))]));
+        let ttext = print(&twin);
+        let t = drive::run_pipeline(ctx, &ttext, M3, RunOpts::default());
+        if !matches!(t.front, Front::Accepted) || is_stack(&t.end) {
+            continue; // the sentinel's static type does not fit a later use: no verdict
+        }
+        if t.behaviour() != base.behaviour() {
+            return Some(Violation::new(
+                "value-reported-as-never-read-is-observed",
+                text.clone(),
+                json!({"warning": w.message, "statement_index": k, "twin": ttext,
+                       "original": base.show(), "with_sentinel": t.show()}),
+            ));
+        }
+    }
+    None
 }
 
 fn is_stack(e: &End) -> bool {
